@@ -45,6 +45,12 @@ def image_shaped(rng, geo, wid, frac=0.3, kinds=("data", "zero", "zero_prealloc"
             "holes": rng.choice([0, 0, 2]), "clusters": cl, "size_minus_sectors": size_minus_sectors}
     if l1_entries is not None:
         desc["l1_entries"] = l1_entries
+    # host file that ends at any byte inside its last (data) cluster
+    bpc = 1 << (geo["cb"] - geo["bsb"])
+    r2 = random.Random(desc["shuffle"] * 31 + vc)
+    if bpc > 1 and r2.random() < 0.3:
+        bs = 1 << geo["bsb"]
+        desc["eof_cut"] = [r2.randrange(1, bpc), r2.choice([0, 1, 8, 488, 511, bs // 2 + 3, bs - 1]) % bs]
     if any(c["kind"] == "comp" for c in cl) and rng.random() < 0.5:
         desc["comp_start"] = (1 << geo["cb"]) - rng.choice([8, 24, 100, 200])
     return {"kind": "build", "desc": desc}
